@@ -204,7 +204,10 @@ impl<'a, const BITS: usize, const LIMBS: usize> FromSql<'a> for Uint<BITS, LIMBS
             Type::INT8 => i64::from_be_bytes(raw.try_into()?).try_into()?,
             Type::FLOAT4 => f32::from_be_bytes(raw.try_into()?).try_into()?,
             Type::FLOAT8 => f64::from_be_bytes(raw.try_into()?).try_into()?,
-            Type::MONEY => (i64::from_be_bytes(raw.try_into()?) / 100).try_into()?,
+            // Floor division, so that negative amounts above -1.00 are rejected too.
+            Type::MONEY => i64::from_be_bytes(raw.try_into()?)
+                .div_euclid(100)
+                .try_into()?,
 
             // Binary strings
             Type::BYTEA => Self::try_from_be_slice(raw).ok_or(FromSqlError::Overflow)?,
